@@ -8,7 +8,8 @@
 From Coq Require Import Lia PeanoNat Permutation.
 From AV Require Import Base.Bytes Base.Outcome Hash.HashModel Spec.SpecOps Tree.Heap Tree.Ops Tree.Script Tree.IndexProofsW
   Tree.Index Tree.IndexProofsBase Tree.IndexProofsAssoc Tree.IndexProofsFrame Tree.IndexProofsAttach Tree.IndexProofsTree
-  Tree.Refs Tree.RefsProofsBase Tree.RefsProofs Tree.RefsProofsSetName Tree.Sort Tree.SortProofsHeap Tree.SortProofsNames.
+  Tree.Refs Tree.RefsProofsBase Tree.RefsProofs Tree.RefsProofsSetName Tree.Sort Tree.SortProofsHeap Tree.SortProofsNames
+  Tree.IndexProofsRemove Tree.IndexProofsRemoveOp.
 Open Scope string_scope.
 Open Scope list_scope.
 Open Scope N_scope.
@@ -178,3 +179,15 @@ Proof.
 Qed.
 
 End SortX.
+
+(* ---------- agent-c14's hypothesis NameFirst is the absence of late SHORT-NAME elements (Index.late_short, NoLate) *)
+Lemma nolate_namefirst T w : NoLate T w -> NameFirst T w.
+Proof.
+  intros HNL i n c Hi (m & Hm) Hin (cn & Hc & Hcn).
+  assert (Hnamed : named T (n_type n) = true) by (unfold named, is_named; rewrite Hm; reflexivity).
+  apply In_nth_error in Hin as (k & Hk). destruct k as [|k].
+  - destruct (n_content n) as [|it rest] eqn:Ec; [discriminate Hk|]. cbn in Hk. injection Hk as ->. exists rest. split; [reflexivity|].
+    intros c' Hin' (cn' & Hc' & Hcn'). apply In_nth_error in Hin' as (k' & Hk').
+    apply (HNL i n k' c' cn' Hi Hnamed); [rewrite Ec; exact Hk'|exact Hc'|exact Hcn'].
+  - exfalso. exact (HNL i n k c cn Hi Hnamed Hk Hc Hcn).
+Qed.
